@@ -30,7 +30,8 @@ OVFLAG=()
 TAGS=()
 if [ -f "$VERIF/checks/$id/overlay.conf" ]; then
   # build-time instrumentation generated from the current tree (never committed to the repo)
-  if ! "$GO" run "${MODFLAG[@]}" ./cmd/vgen -repo "$REPO" -out "$B/ov-$id" -conf "$VERIF/checks/$id/overlay.conf" -shim "$VERIF/shim"; then
+  "$GO" build -o "$VERIF/.build/vgen" ./cmd/vgen || exit 2
+  if ! "$VERIF/.build/vgen" -repo "$REPO" -out "$B/ov-$id" -conf "$VERIF/checks/$id/overlay.conf" -shim "$VERIF/shim"; then
     echo "[$ID] overlay generation failed" >&2
     exit 2
   fi
